@@ -1826,3 +1826,184 @@ class FileAtom:
         self.why = {}
         return {"@class": pa(local), "%s_m" % p: pa(local), "%s_f" % p: pa(local),
                 "%s_u" % p: pa(local and promiscuous), "%s_i" % p: "absent"}
+
+
+# ------------------------------------------------ C04: hierarchies with hidden derivations
+
+HIER_CONTENT = ("pub", "public", "none")
+HIER_DERIV = ("public", "protected", "private", "defclass", "defstruct", "vpublic")
+
+
+class HierAtom:
+    """Chain <p>X0 <- <p>X1 [<- <p>X2]; every class has published members, only public
+    members or none; every derivation is public / protected / private / the default of
+    `class` / the default of `struct` / virtual public.  Which bases an outsider can reach
+    by an implicit pointer conversion is asked of g++ (probe_lines -> self.conv)."""
+
+    def __init__(self, prefix, contents, derivs):
+        self.p, self.contents, self.derivs = prefix, tuple(contents), tuple(derivs)
+        self.key = "hier:%s:%s" % ("/".join(contents), "/".join(derivs))
+        self.classes = ["%sX%d" % (prefix, i) for i in range(len(contents))]
+        self.conv = None
+
+    def render(self):
+        L = []
+        for i, c in enumerate(self.contents):
+            kw, spec = "class", ""
+            if i > 0:
+                d = self.derivs[i - 1]
+                base = self.classes[i - 1]
+                if d == "defstruct":
+                    kw, spec = "struct", " : " + base
+                elif d == "defclass":
+                    spec = " : " + base
+                elif d == "vpublic":
+                    spec = " : virtual public " + base
+                else:
+                    spec = " : %s %s" % (d, base)
+            L.append("%s %s%s {" % (kw, self.classes[i], spec))
+            if c == "pub":
+                L += ["__published:", "  int %s_m%d(int a);" % (self.p, i)]
+            elif c == "public":
+                L += ["public:", "  int %s_m%d(int a);" % (self.p, i)]
+            L.append("};")
+        return "\n".join(L) + "\n"
+
+    def probe_lines(self):
+        out = []
+        for i in range(len(self.classes)):
+            for j in range(i):
+                out.append('  printf("%s %d %d %%d\\n", (int)std::is_convertible<%s *, %s *>::value);'
+                           % (self.p, i, j, self.classes[i], self.classes[j]))
+        return out
+
+    def model(self, promiscuous, cmd, local):
+        file_ok = local and cmd != "ignorefile"
+        v = {}
+        for i, c in enumerate(self.contents):
+            if c == "none":
+                continue
+            ok = file_ok and (c == "pub" or promiscuous)
+            v["%s_m%d" % (self.p, i)] = "present" if ok else "absent"
+        v["@hier"] = "present"
+        self.why = {}
+        return v
+
+
+def hier_space(tier):
+    out = []
+    for c0 in HIER_CONTENT:
+        for c1 in HIER_CONTENT:
+            for d0 in HIER_DERIV:
+                out.append(((c0, c1), (d0,)))
+    for c0 in HIER_CONTENT:
+        for c1 in HIER_CONTENT:
+            for c2 in HIER_CONTENT:
+                for d0 in HIER_DERIV:
+                    for d1 in HIER_DERIV:
+                        out.append(((c0, c1, c2), (d0, d1)))
+    return out
+
+
+def hier_probe_source(atoms, header_text):
+    L = ["#include <cstdio>", "#include <type_traits>", header_text, "int main() {"]
+    for a in atoms:
+        L += a.probe_lines()
+    L.append("  return 0;\n}")
+    return "\n".join(L) + "\n"
+
+
+# ------------------------------------------------- C05: covariant overrides of a virtual
+
+COV_RET = ("same", "covptr", "covref", "cov2", "covconst", "covlesscv")
+COV_CTX = ("pub", "multi", "basepublic")
+
+
+class CovAtom(Atom5):
+    """Base <p>B declares `virtual R0 <p>_f() const`; <p>D : public <p>B re-declares it with
+    return type R1 (same / covariant pointer / reference / two levels / const-qualified /
+    less cv-qualified), repeating `virtual` or not, the base version pure or not.
+      ctx: pub        single public base, base version published  (may be elided)
+           multi      a second base                                (must be recorded)
+           basepublic base version under `public:`                 (must be recorded)
+    Whether D::f overrides B::f (and whether D is abstract) is asked of g++."""
+
+    def __init__(self, prefix, ret, repeat_virtual, pure, ctx):
+        self.p, self.ret, self.rv, self.pure, self.ctx = prefix, ret, repeat_virtual, pure, ctx
+        self.key = "cov:%s:%s:%s:%s" % (ret, "virtual" if repeat_virtual else "plain",
+                                        "pure" if pure else "impl", ctx)
+        p = prefix
+        self.S, self.T, self.U, self.B, self.D, self.X = (p + "S", p + "T", p + "U", p + "B",
+                                                          p + "D", p + "X")
+        S, T, U = ("cls", self.S), ("cls", self.T), ("cls", self.U)
+        self.r0, self.r1 = {
+            "same": (("ptr", S), ("ptr", S)), "covptr": (("ptr", S), ("ptr", T)),
+            "covref": (("ref", S), ("ref", T)), "cov2": (("ptr", S), ("ptr", U)),
+            "covconst": (("ptr", ("const", S)), ("ptr", ("const", T))),
+            "covlesscv": (("ptr", ("const", S)), ("ptr", T))}[ret]
+
+    def _body(self, t, mark):
+        inner = t[1][1] if t[1][0] == "const" else t[1]
+        return "{ vf_mark = %d; static %s o; return %so; }" % (
+            mark, inner[1], "&" if t[0] == "ptr" else "")
+
+    def render(self):
+        p = self.p
+        f = p + "_f"
+        L = ["extern int vf_mark;",
+             "class %s {\n__published:\n  %s() {}\n  int %s_sm();\n};" % (self.S, self.S, p),
+             "class %s : public %s {\n__published:\n  %s() {}\n  int %s_tm();\n};" % (self.T, self.S, self.T, p),
+             "class %s : public %s {\n__published:\n  %s() {}\n  int %s_um();\n};" % (self.U, self.T, self.U, p)]
+        bsec = "public" if self.ctx == "basepublic" else "__published"
+        L += ["class %s {" % self.B, "__published:", "  %s() {}" % self.B, "  int %s_bm();" % p,
+              "%s:" % bsec,
+              "  virtual %s %s() const%s" % (cpp_type(self.r0), f,
+                                            " = 0;" if self.pure else " " + self._body(self.r0, 1)),
+              "};"]
+        bases = "public " + self.B
+        if self.ctx == "multi":
+            L.append("class %s {\n__published:\n  int %s_xm();\n};" % (self.X, p))
+            bases += ", public " + self.X
+        L += ["class %s : %s {" % (self.D, bases), "__published:", "  %s() {}" % self.D,
+              "  %s%s %s() const %s" % ("virtual " if self.rv else "", cpp_type(self.r1), f,
+                                       self._body(self.r1, 2)),
+              "  int %s_dm();" % p, "};"]
+        return "\n".join(L) + "\n"
+
+    def probe_line(self):
+        if self.pure:
+            return '  printf("%s %%d\\n", (int)!std::is_abstract<%s>::value);' % (self.p, self.D)
+        return ('  { %s d; const %s *b = &d; vf_mark = 0; b->%s_f(); printf("%s %%d\\n", (int)(vf_mark == 2)); }'
+                % (self.D, self.B, self.p, self.p))
+
+    def truth(self, facts):
+        overrides = facts[self.p]
+        f = self.p + "_f"
+        t = {"functions": [], "optional_functions": [], "classes": [], "reach": [(self.D, f)]}
+        dfn = Func(f, [], self.r1, const=True, virtual=(overrides or self.rv), cls=self.D)
+        if self.ctx == "pub":
+            t["optional_functions"].append(dfn)      # may be elided: reachable through B
+        else:
+            t["functions"].append(dfn)
+        if self.ctx != "basepublic":
+            t["functions"].append(Func(f, [], self.r0, const=True, virtual=True, cls=self.B))
+        if overrides or not self.pure:
+            # D is a concrete class: its published constructor must be recorded
+            t["functions"].append(Func(self.D, [], None, ctor=True, cls=self.D))
+            t["classes"].append({"scoped": self.D, "kind": "class", "outer": None,
+                                 "ctors_include": ["%s::%s" % (self.D, self.D)]})
+        return t
+
+
+def cov_space(tier):
+    return [(r, rv, pure, ctx) for r in COV_RET for rv in (False, True) for pure in (False, True)
+            for ctx in COV_CTX]
+
+
+def cov_probe_source(atoms, header_name):
+    L = ["#include <cstdio>", "#include <type_traits>", "int vf_mark;",
+         '#include "%s"' % header_name, "int main() {"]
+    for a in atoms:
+        L.append(a.probe_line())
+    L.append("  return 0;\n}")
+    return "\n".join(L) + "\n"
